@@ -192,3 +192,43 @@ Theorem t1_transpose_note_spec : forall i a n q sem up,
   match C16.tn_note n sem up i a with Some (i', a') => Some (step_name i', a') | None => None end.
 Proof. exact PV.Proofs.C16_t1.t1_transpose_note_spec. Qed.
 Print Assumptions t1_transpose_note_spec.
+
+(* ---- transposition by an Interval OBJECT after any history of operations on it (Model/C12_Interval.v: the state
+   machine of score.Interval -- reads, transpose_note, transpose(), change_quality, assignment of number / quality /
+   direction; tied to the code by replaying every generated history on a real object, harness/props/c16.py stream
+   "history").  Whatever was done with the object before, a note moves by the staff steps AND the semitones of the
+   interval the object denotes NOW, in its current direction: the diatonic specification at the table size of its
+   current fields -- the same as for a freshly constructed interval. ---- *)
+From PV Require Import Model.C12_Interval Proofs.C16_interval.
+Theorem interval_history_transpose : forall (f0 : PyInterval) (ops : list iop) n q sem up i a o,
+  let s := final_code ops f0 in
+  i_number s = n -> i_quality s = q -> i_direction s = dir_name up ->
+  C12.interval_semitones n q = Some sem -> 0 <= i <= 6 ->
+  tr_code s (mk_note (step_name i) (Some a) o) = Some (note_of_pitch (C16.tr_spec n sem up (i, a, o))) /\
+  tn_code s (step_name i) a =
+    match C16.tn_note n sem up i a with Some (i', a') => Some (step_name i', a') | None => None end.
+Proof. exact interval_history_transpose_lemma. Qed.
+Print Assumptions interval_history_transpose.
+
+(* transpose(part, iv) as an operation of the history: every note of the part, and the interval object is not modified *)
+Theorem interval_history_transpose_all : forall (f0 : PyInterval) (ops : list iop) n q sem up (l : list (Z * Z * Z)),
+  let s := final_code ops f0 in
+  i_number s = n -> i_quality s = q -> i_direction s = dir_name up ->
+  C12.interval_semitones n q = Some sem -> Forall (fun x : Z * Z * Z => 0 <= fst (fst x) <= 6) l ->
+  snd (step_code (OpTr (map note_of_pitch l)) s) = ObNotes (Some (map (fun x => note_of_pitch (C16.tr_spec n sem up x)) l)) /\
+  fst (step_code (OpTr (map note_of_pitch l)) s) = s.
+Proof. exact interval_history_transpose_all_lemma. Qed.
+Print Assumptions interval_history_transpose_all.
+
+(* NOT vacuous: for a machine that memoises the size on the object (not the code) the statement fails -- M6 up used
+   once, change_quality(-1), used again: C4 goes to A natural (old size 9), the minor sixth above C4 is A flat *)
+Example interval_history_transpose_memo_refuted :
+  let c4 := mk_note "C" (Some 0) 4 in
+  let s := snd (run step_memo m_iv [OpTr [c4]; OpCq (-1)] (memo_init (mk_interval 6 "M" "up"))) in
+  m_iv s = mk_interval 6 "m" "up" /\
+  snd (step_memo (OpTr [c4]) s) = ObNotes (Some [mk_note "A" (Some 0) 4]) /\
+  C12.interval_semitones 6 "m" = Some 8 /\
+  note_of_pitch (C16.tr_spec 6 8 true (0, 0, 4)) = mk_note "A" (Some (-1)) 4 /\
+  history_ok step_memo m_iv [OpTr [c4]; OpCq (-1); OpTr [c4]] (memo_init (mk_interval 6 "M" "up")) = false.
+Proof. exact interval_history_transpose_memo_refuted_lemma. Qed.
+Print Assumptions interval_history_transpose_memo_refuted.
